@@ -123,7 +123,7 @@ Proof.
     pose proof (sumz_perm _ _ (Permutation_map csize P)) as PS. pose proof (sumz_perm _ _ (Permutation_map csize P2)) as PS2.
     cbn [map] in PS, PS2. rewrite sumz_cons in PS, PS2. pose proof (csize_le k v ov Hle).
     split; [unfold SLOT, LEAF_START, PAGE, BTree.entry in *; lia|]. split; [unfold SLOT, LEAF_START, PAGE, BTree.entry in *; lia|].
-    split; [exact Hfr2|]. intros Hnil. exfalso. cbn [lcells] in Hnil. rewrite Hnil in PL2. discriminate.
+    split; [exact Hfr2|]. intros Hnil. exfalso. cbn [lcells] in Hnil. apply (f_equal (@length _)) in Hnil. cbn [length] in Hnil. unfold BTree.entry in *. lia.
 Qed.
 
 Lemma lguard_ok_d lo hi (l : leaf) : leaf_ok lo hi l -> lguard V l = true.
